@@ -427,6 +427,9 @@ func c07Gen(r *Rng, n int) []string {
 		}
 		for j := 0; j < 4; j++ {
 			path := r.DerivedPath(m, true, 5)
+			if r.P(2) {
+				path = r.Pick([]string{"", "."}) // no step at all: the Map itself
+			}
 			if starKey && j < 2 {
 				path = r.Pick([]string{"w.*", "*.*", "w.*.a", "w.a", "*"})
 			}
